@@ -46,9 +46,11 @@ def replay_main(args):
     chk = load_check(args.prop)
     rec = json.load(open(args.replay))
     hs = rec.get("hashseed")
-    if hs is not None and os.environ.get("PYTHONHASHSEED") != str(hs) and not os.environ.get("VPMON_REEXEC"):
-        # reproduce under the hash seed of the shard that found it
-        env = dict(os.environ, PYTHONHASHSEED=str(hs), VPMON_REEXEC="1")
+    shard_env = rec.get("shard_env") or {}
+    if ((hs is not None and os.environ.get("PYTHONHASHSEED") != str(hs)) or shard_env) \
+            and not os.environ.get("VPMON_REEXEC"):
+        # reproduce under the hash seed / configuration of the shard that found it
+        env = dict(os.environ, PYTHONHASHSEED=str(hs if hs is not None else 0), VPMON_REEXEC="1", **shard_env)
         return subprocess.call([sys.executable, "-m", "vpmon.cli", args.prop, "--replay", args.replay],
                                env=env, cwd=HERE)
     ctx = core.Ctx(args.prop, rec.get("tier", "quick"), rec.get("seed", 0))
@@ -106,6 +108,8 @@ def parent_main(args):
         # shard 0 keeps the launcher's seed
         if i:
             env["PYTHONHASHSEED"] = str((args.seed * 131 + i) % 4294967295)
+        if hasattr(chk, "SHARD_ENV"):
+            env.update(chk.SHARD_ENV(i, nshards))       # configurations a check spreads over its shards
         out = os.path.join(tmp, "shard%d.json" % i)
         cmd = [sys.executable, "-m", "vpmon.cli", args.prop, "--worker", "--tier", tier,
                "--seed", str(args.seed), "--shard", str(i), "--nshards", str(nshards),
